@@ -650,6 +650,9 @@ func verifSpecCL(lowered string) primitive.ConsistencyLevel {
 //@   after frame.RawCodec.DecodeBody#1 set $rxBodyTried = true; $rxBodyOK = (result1 == nil); $rxMsg = result0.Message
 //@   ensures undecodable: !$rxDecoded ==> result != nil && c.$sent == old(c.$sent) && c.$executed == old(c.$executed) && $reqStarted == old($reqStarted)
 //@   ensures version-gate: $rxDecoded && ($rxVersion > c.proxy.config.MaxVersion || $rxVersion < primitive.ProtocolVersion3) ==> result == nil && !$rxBodyTried && c.$sent == old(c.$sent) + 1 && c.$executed == old(c.$executed) && $reqStarted == old($reqStarted) && typeis($lastMsg, *message.ProtocolError) && $lastStream == $rxStream && $lastVersion == $rxVersion && $lastClient == c
+// ... and a frame of an accepted version always gets that far: there is no path between the version
+// gate and the body decoder on which a frame is dropped without an answer
+//@   ensures accepted-frames-are-decoded: $rxDecoded && !($rxVersion > c.proxy.config.MaxVersion || $rxVersion < primitive.ProtocolVersion3) ==> $rxBodyTried [C01]
 //@   ensures bad-body: $rxBodyTried && !$rxBodyOK ==> result != nil && c.$sent == old(c.$sent) && c.$executed == old(c.$executed) && $reqStarted == old($reqStarted)
 //@   ensures one-answer: $rxBodyTried && $rxBodyOK ==> result == nil && (c.$sent - old(c.$sent)) + ($reqStarted - old($reqStarted)) == 1 && c.$sent >= old(c.$sent) && $reqStarted >= old($reqStarted)
 //@   ensures local-opcodes: $rxBodyTried && $rxBodyOK && !typeis($rxMsg, *message.Prepare) && !typeis($rxMsg, *codecs.PartialExecute) && !typeis($rxMsg, *codecs.PartialQuery) && !typeis($rxMsg, *codecs.PartialBatch) ==> c.$sent == old(c.$sent) + 1 && c.$executed == old(c.$executed) && $reqStarted == old($reqStarted) && $lastStream == $rxStream && $lastClient == c
